@@ -10,7 +10,7 @@ LEVEL = "model_checking"
 ANCHOR_PREFIXES = ["element::SvgElement::eval_rel", "element::SvgElement::place_at", "element::SvgElement::eval_pos", "element::SvgElement::pos_attr", "element::SvgElement::eval_size",
                    "element::SvgElement::split_compound", "element::SvgElement::expand_compound", "element::SvgElement::resolve_size", "element::SvgElement::extract_dx",
                    "position::", "element::split_relspec", "types::extract_elref", "context::"]
-BOUNDS = ("reference element in {rect, circle, ellipse, line, box, point, g with one child}, referenced as #id or ^; positioned element in {rect, circle, ellipse, rect with dw/dh/dwh}; elements positioned on one axis only; "
+BOUNDS = ("reference element in {rect, circle, ellipse, line, box, point, g with one child}, referenced as #id or ^; positioned element in {rect, circle, ellipse, rect with dw/dh/dwh, rect / circle / ellipse with dx / dy / dxy}; elements positioned on one axis only; "
           "forms: |h |H |v |V with gap absent/symbolic (either sign); @loc for 9 locations and 4 edges (offset symbolic either sign, or 0/25/50/100/150 %) with xy, xy+xy-loc (8), cxy, "
           "delta absent/one/two symbolic values; 11 scalar kinds on x y cx cy x2 y2 with delta absent/abs/percent, bare per-axis reference, per-axis @loc; relative sizes wh=#r, #r p%, #r a b, "
           "width=#r~h p%, dw dh dwh abs/percent; chains of length 3; positions k/2 in [-512,512], sizes k/2 in [0,256] (integers where a percentage or a further halving is applied), gaps/deltas k/2 in [-64,64]; chains in every document order, middle element by cxy + r or with dw / dh, last element sized from the middle one; element ids with non-ASCII letters, digits, _ and -")
@@ -48,10 +48,16 @@ def pos_kinds(k0):
         # the placed element's own size is its size after dw / dh / dwh have been applied
         "rect-dwh": ('<rect id="p" {rel} wh="%s %s" dwh="4 6"/>' % (a, b), [(6, *SZI), (8, *SZI)], plus(va, "4.0"), plus(vb, "6.0")),
         "rect-dh": ('<rect id="p" {rel} wh="%s %s" dh="[[%d]]"/>' % (a, b, k0 + 2), [(6, *SZI), (8, *SZI), (4, 0, 32, 0)], va, plus(vb, f"v{k0 + 2}")),
+        # dx / dy / dxy on the placed element shift it once, after the placement
+        "ellipse-dxy": ('<ellipse id="p" {rel} rxy="%s %s" dxy="3 -2"/>' % (a, b), [(3, *SZI), (4, *SZI)], mul("2.0", va), mul("2.0", vb)),
+        "ellipse-dy": ('<ellipse id="p" {rel} rxy="%s %s" dy="5"/>' % (a, b), [(3, *SZI), (4, *SZI)], mul("2.0", va), mul("2.0", vb)),
+        "circle-dx": ('<circle id="p" {rel} r="%s" dx="3"/>' % a, [(3, *SZI)], mul("2.0", va), mul("2.0", va)),
+        "rect-dxy": ('<rect id="p" {rel} wh="%s %s" dxy="3 -2"/>' % (a, b), [(6, *SZI), (8, *SZI)], va, vb),
         "rect-dw-pct": ('<rect id="p" {rel} wh="%s %s" dw="50%%"/>' % (a, b), [(6, 0, 256, 0), (8, *SZI)], mul("0.5", va), vb),
     }
 
 
+SHIFT = {"ellipse-dxy": ("3.0", "(- 2.0)"), "ellipse-dy": ("0.0", "5.0"), "circle-dx": ("3.0", "0.0"), "rect-dxy": ("3.0", "(- 2.0)")}
 LOCS = ["tl", "t", "tr", "r", "br", "b", "bl", "l", "c"]
 EDGES = ["t", "r", "b", "l"]
 PCTS = [0, 25, 50, 100, 150]
@@ -65,13 +71,13 @@ def templates(tier, seed):
     PK = ["rect", "circle", "ellipse"]
     for rk in RK:
         for ref in ("#r", "^"):
-            for pk in PK + ["rect-dwh", "rect-dh", "rect-dw-pct"]:
+            for pk in PK + ["rect-dwh", "rect-dh", "rect-dw-pct"] + list(SHIFT):
                 for d in DIRS:
                     for gap in ("none", "sym"):
                         tds.append(dict(fam="dir", rk=rk, ref=ref, pk=pk, d=d, gap=gap))
     for rk in RK:
         for ref in ("#r", "^"):
-            for pk in PK + (["rect-dwh", "rect-dh"] if ref == "#r" else []):
+            for pk in PK + (["rect-dwh", "rect-dh"] + list(SHIFT) if ref == "#r" else []):
                 for loc in LOCS:
                     for anchor in ["xy", "cxy"] + ["xy-loc:" + l for l in LOCS if l != "tl"]:
                         for delta in ("none", "one", "two"):
@@ -192,6 +198,7 @@ def build(td, wrong=False):
         rm, rvars, vbox, vis = RKS[td["rk"]]
         k0 = len(rvars)
         pm, pvars, pw, ph = pos_kinds(k0)[td["pk"]]
+        shx, shy = SHIFT.get(td["pk"], ("0.0", "0.0"))
         vars_ = list(rvars) + list(pvars)
         ref = td["ref"]
         if fam == "dir":
@@ -210,7 +217,7 @@ def build(td, wrong=False):
                 rb = ref_box(o, td["rk"], vis, vbox)
                 exp = {"h": (plus(rb.x2, g), minus(rb.cy, half(ph))), "H": (minus(minus(rb.x1, g), pw), minus(rb.cy, half(ph))),
                        "v": (minus(rb.cx, half(pw)), plus(rb.y2, g)), "V": (minus(rb.cx, half(pw)), minus(minus(rb.y1, g), ph))}[d]
-                return [Obl("x1", ne(pb.x1, exp[0])), Obl("y1", ne(pb.y1, exp[1])), Obl("w", ne(pb.w, pw)), Obl("h", ne(pb.h, ph))]
+                return [Obl("x1", ne(pb.x1, plus(exp[0], shx))), Obl("y1", ne(pb.y1, plus(exp[1], shy))), Obl("w", ne(pb.w, pw)), Obl("h", ne(pb.h, ph))]
             doc = "<svg>" + rm + pm.replace("{rel}", rel) + "</svg>"
             return Template(f"dir/{td['rk']}/{ref}/{td['pk']}/{d}/{td['gap']}", doc, vars_, std_check(obls, wrong), family="direction", role=f"C09/dir/{d}", cap=12)
         # loc / edge
@@ -253,7 +260,7 @@ def build(td, wrong=False):
             else:
                 lx, ly = rb.edge(td["edge"], Fraction(int(td["off"][3:]), 100), pct=True)
             ax, ay = anchor_point(pb, anchor)
-            return [Obl("anchor-x", ne(ax, plus(lx, dx, W))), Obl("anchor-y", ne(ay, plus(ly, dy))), Obl("w", ne(pb.w, pw)), Obl("h", ne(pb.h, ph))]
+            return [Obl("anchor-x", ne(ax, plus(lx, dx, W, shx))), Obl("anchor-y", ne(ay, plus(ly, dy, shy))), Obl("w", ne(pb.w, pw)), Obl("h", ne(pb.h, ph))]
         doc = "<svg>" + rm + pm.replace("{rel}", rel) + "</svg>"
         name = f"{fam}/{td['rk']}/{ref}/{td['pk']}/{locs}/{anchor}/{td['delta']}"
         return Template(name, doc, vars_, std_check(obls, wrong), family="location" if fam == "loc" else "edge-offset", role=f"C09/{fam}", cap=16)
